@@ -246,16 +246,20 @@ class C10(Check):
                   '_processedJobs against live workers, queued null jobs and clients about to start a worker, and "the call of a started, '
                   'unfinished future is in its owner\'s push loop, queued, or held by a worker that is not blocked"; hence while a client '
                   'is unfinished some thread can take a step that changes the state (some_thread_can_move), and a state changes no more '
-                  'exactly when every thread is blocked (join_liveness_partial). (B) NOT PROVED: that under a fair scheduler the moves '
-                  'cannot go on for ever without every join returning (no livelock of the CAS retry loops and of the reset/wait loops of '
-                  'workers and producers; no measure is formalised) - this part is validated by explicit-state search of the model in '
-                  'bounded configurations and by real-thread runs only. The clause is refuted by machine-checked witnesses (a) for '
+                  'exactly when every thread is blocked (join_liveness_partial). (B) NOT PROVED: that under a fair scheduler every join '
+                  'returns after finitely many moves. Proved towards it: while a client is unfinished every window of moves that schedules '
+                  'each existing thread at least once contains a state-changing move (fair_window_has_effective_move, '
+                  'fair_progress_partial). Missing: a rank that the moves that matter decrease; it is NOT the number of state-changing '
+                  'moves - state_changing_moves_unbounded is a machine-checked reachable state of the repaired code in which an idle '
+                  'worker spins (pop - reset - pop - wait, 7 state-changing moves back to the same state, because set() racing with '
+                  'reset() left _state == 0 with the inner Signal set; no join waits for it). This part is validated by sampled fair runs '
+                  'of the model and by real-thread runs only. The clause is refuted by machine-checked witnesses (a) for '
                   'the sleep/wake handshake as it was before fixes/C10/01-03 (three genuine lost-wake-up defects, repaired) and (b) for '
                   'the code as it is now when started functions start futures themselves ("started from any threads": workers block in '
                   'start() on a full queue that only workers drain - OPEN finding). The model is tied to the code by running the '
                   'same client scripts on the extracted model/spec and on an ASan/UBSan build of the working tree with real threads under '
                   'injected delays, spurious wake-ups and gated replays of model schedules.')
-    level_note = ('PROVED (Properties_C10.v, 23 theorems, all closed under the global context): model_invariant_all_schedules, '
+    level_note = ('PROVED (Properties_C10.v, 27 theorems, all closed under the global context): model_invariant_all_schedules, '
                   'each_call_runs_at_most_once, joined_call_ran_exactly_once, run_uses_given_arguments, starts_unique, '
                   'result_is_return_value, result_after_join (OGet of a future that is not joinable = return value of the latest start), '
                   'destructor_waits_for_worker (c_sigfix = true: every EvDestroy is clean = no thread stands at PopRead/PopRelease/KWSet/'
@@ -292,9 +296,19 @@ class C10(Check):
                   'driver: 1 client/capacity 1 exhausted at 3.2M states, 2 and 3 clients 6M and 4M states, random runs with 4 clients 20M '
                   'states, no violation; the same evaluation flags the FastSignal clause on the handshake as it was) before it was proved. '
                   'NOT PROVED, part (B): termination under fairness (every thread that is not blocked moves eventually => every join '
-                  'returns after finitely many moves): it needs a measure that decreases along the CAS retry loops (a failed CAS means '
-                  'another thread claimed a ticket) and along the pop-reset-pop-wait / push-reset-push-wait loops (an iteration needs a '
-                  'set() by another thread; there are finitely many claims and sets per script operation); not formalised. It is validated '
+                  'returns after finitely many moves). Proved towards it: effective_moves counts the moves of a schedule made by threads '
+                  'that are not blocked; each changes the state (effective_move_changes_the_state); fair_window_has_effective_move (reachable '
+                  'state, a client unfinished, a window in which every thread index below the current thread count occurs => the window '
+                  'contains an effective move) and fair_progress_partial (n consecutive such windows with a client still unfinished at the '
+                  'end => at least n effective moves). The missing half is a rank that decreases along the moves that matter. It cannot be '
+                  'a function of the state that decreases at every effective move: state_changing_moves_unbounded (witness replayed by '
+                  'vm_compute: 1 client, pool 0..3, queue 4, 59 moves, then worker 2 alone makes 7 effective moves and the state is the same '
+                  'again - FastSignal::set of the producer (testAndSet(_state) ... _signal.set()) interleaved with reset() of a worker leaves '
+                  '_state == 0 with the inner Signal set, wait() then returns at once and reset() does nothing: an idle worker busy-spins '
+                  'until the next set()/reset() pair; harmless for join, so no finding, but it burns a core). A proof of (B) needs the '
+                  'helpful-thread form of the argument (some thread whose moves lower the rank is enabled and stays enabled; CAS retries are '
+                  'paid by the claim that made them fail, pop-reset-pop-wait / push-reset-push-wait iterations by the set() that ended the '
+                  'wait; spinning workers leave the rank alone); not formalised. It is validated '
                   'only by sampling: (1) every model run of the check follows a pseudo-random schedule that picks among the threads able '
                   'to move (a fair scheduler with probability one) and ends with all clients finished within the step budget (a run that '
                   'does not would print `! timeout`); (2) the real-thread runs below. The exhaustive explicit-state searches '
